@@ -109,6 +109,7 @@ class InUnits(_Route):
 
     def result(self, it, a):
         r = N.make_unyt_array(it, "converted", units=a.units)
+        r.fields["name"] = a.self.fields.get("name")          # the name is preserved by conversions
         # ghost: the converted copy denotes the same quantity as the input (used by the
         # handler contracts: an argument converted to the reference unit counts as forwarded)
         N.arr_buf(r).converted_from = N.arr_buf(a.self)
